@@ -486,6 +486,12 @@ fn gen_c11(r: &mut Prng, _i: u64, _t: Tier) -> Plan {
     for _ in 0..r.below(3) {
         p.streams.push(gen_stream(r, &CLEAN));
     }
+    // "a datagram is lost only when the buffer is full or the connection ends"
+    if r.chance(1, 6) {
+        let kind = gen_end_cause(r);
+        let span = *r.pick(&[10usize, 40, 150]);
+        p.faults.push(Fault { at: r.below(span) as u64, kind });
+    }
     p
 }
 fn x_c11(r: &DuoRun, _wm: &WireModel, _ei: &EndInfo, o: &mut Outcome) {
@@ -558,6 +564,12 @@ fn gen_c15(r: &mut Prng, _i: u64, _t: Tier) -> Plan {
         }
         p.dg_rx.push(DgRx { ep: 1 - tx.from, pace: vec![r.below(3)], take: None });
         p.dg_tx.push(tx);
+    }
+    // the connection may end first: then `false` or Closed are the only legal answers
+    if r.chance(1, 5) {
+        let kind = gen_end_cause(r);
+        let span = *r.pick(&[10usize, 40, 150]);
+        p.faults.push(Fault { at: r.below(span) as u64, kind });
     }
     p
 }
@@ -778,12 +790,15 @@ fn nt_c07(r: &DuoRun, _wm: &WireModel, _e: &EndInfo) -> bool {
     l.evs.iter().any(|e| e.stage == Stage::Sent && matches!(&*e.w, Wire::Frame(RFrame::Reset { .. })))
 }
 pub fn c07() -> Check {
-    duo_check(
+    let c = duo_check(
         "C07",
         "exploration",
         vec![fam("crossing-opens", 300000, 3_000_000, gen_c07, OracleCfg { accountant: false, ..OracleCfg::default() }, Some(x_c07), nt_c07, "scripted flow-id RNGs on both sides draw from {0..k}, k in 2..6 (zero, live ids and the peer's simultaneous choice all occur); 1-4 concurrent new_stream_channel calls per side; hosts of 0..300 arbitrary bytes, all ports; max_flow_id_retries in {1,2,3,5}; every established stream is kept open to the end. Oracle: each successful request <-> exactly one accepted stream with the same host bytes and port (ghost or missing accepts flagged); Connect never carries id 0 or an id pending/live at its sender; Connect.rwnd / handshake Acknowledge = configured windows; exactly `peer rwnd` writes complete against a non-reading peer on both sides; FlowIdRejected exactly after max_flow_id_retries Connects. Non-trivial: at least one Reset (rejected proposal) crossed the wire.")],
         vec!["connect-collision-with-live-or-pending-id", "open-succeeded-after-retry", "flow-id-rejected"],
-    )
+    );
+    let mut c = c;
+    c.families.push(Box::new(C07RawFamily));
+    c
 }
 
 // ------------------------------------------------------------------ C08
@@ -1024,7 +1039,7 @@ pub struct C10Family {
 fn c10_base(r: &mut Prng) -> C10Plan {
     C10Plan {
         ep: EpCfg { rwnd: *r.pick(&[1u32, 2, 3, 4]), threshold: *r.pick(&[1u32, 2, 4]), dgram_buf: *r.pick(&[1usize, 8]), stream_buf: 16, bind_buf: *r.pick(&[0usize, 0, 8]), retries: 3, ids: vec![] },
-        link: LinkCfg { window: *r.pick(&[2usize, 8, 1 << 20]), latency_ms: 0, drop_after_close: r.chance(1, 2) },
+        link: LinkCfg { window: *r.pick(&[2usize, 8, 1 << 20]), latency_ms: 0, drop_after_close: r.chance(1, 2), ws_client: r.below(2) as u8 },
         weights: gen_weights(r),
         peer_rwnd: *r.pick(&[1u32, 2, 4, 16]),
         seqn: vec![],
@@ -1153,7 +1168,7 @@ impl Family for C13Family {
         let pushes = (0..r.below(10)).map(|_| if r.chance(1, 10) { 1 + r.below(4000) } else { 1 + r.below(30) }).collect();
         let plan = C13Plan {
             ep: EpCfg { rwnd, threshold: 1 + r.below(rwnd as usize) as u32, dgram_buf: 8, stream_buf: 4, bind_buf: 0, retries: 3, ids: vec![] },
-            link: LinkCfg { window: *r.pick(&[1usize, 4, 1 << 20]), latency_ms: if r.chance(1, 5) { 10 } else { 0 }, drop_after_close: false },
+            link: LinkCfg { window: *r.pick(&[1usize, 4, 1 << 20]), latency_ms: if r.chance(1, 5) { 10 } else { 0 }, drop_after_close: false, ws_client: r.below(2) as u8 },
             weights: gen_weights(r),
             peer_rwnd: *r.pick(&[1u32, 2, 4, 100]),
             rs,
@@ -1238,7 +1253,7 @@ impl Family for C16Family {
                 tail = Some(0);
             }
         }
-        let plan = C16Plan { interval_ms: i_ms, timeout_ms: t_req, delays, tail, link: LinkCfg { window: 1 << 20, latency_ms: 0, drop_after_close: r.chance(1, 2) }, weights: gen_weights(r) };
+        let plan = C16Plan { interval_ms: i_ms, timeout_ms: t_req, delays, tail, link: LinkCfg { window: 1 << 20, latency_ms: 0, drop_after_close: r.chance(1, 2), ws_client: r.below(2) as u8 }, weights: gen_weights(r) };
         (serde_json::to_value(plan).expect("plan"), seed)
     }
     fn exec(&self, plan: &Value, sched: &Sched, record: bool) -> Outcome {
@@ -1406,5 +1421,42 @@ pub fn c18() -> Check {
         assumptions: vec!["addresses are compared by value (parsed IP), not by textual form", "SOCKS4 requests with DSTIP 0.0.0.0 or 0.x.y.z (x..!=0) are unspecified and not judged"],
         real: vec!["penguin_socks::v4::{read_request, write_response}", "penguin_socks::v5::{read_auth_methods, write_auth_method, read_request, write_response, write_response_unspecified, parse_udp_relay_header, udp_relay_response}", "tokio::io::BufReader / AsyncReadExt / AsyncBufReadExt"],
         stub: vec!["the byte stream (scripted chunking, Pending, EOF, errors, short writes)", "the SOCKS client (reference grammar / RFC 1928 parser)"],
+    }
+}
+
+// ------------------------------------------------------------------ C07: raw peer rejecting proposals
+
+pub struct C07RawFamily;
+impl Family for C07RawFamily {
+    fn name(&self) -> &'static str {
+        "rejecting-peer"
+    }
+    fn runs(&self, tier: Tier) -> u64 {
+        if tier == Tier::Quick { 100_000 } else { 2_000_000 }
+    }
+    fn generate(&self, batch_seed: u64, index: u64, _tier: Tier) -> (Value, u64) {
+        let seed = simcore::prng::mix(batch_seed, "rejecting-peer", index);
+        let mut r = Prng::new(seed);
+        let r = &mut r;
+        let retries = *r.pick(&[1usize, 2, 3, 5]);
+        let opens = 1 + r.below(3);
+        let space = 2 + r.below(6);
+        let plan = C07RawPlan {
+            ep: EpCfg { rwnd: 4, threshold: 2, dgram_buf: 8, stream_buf: 4, bind_buf: 0, retries, ids: if r.chance(1, 2) { (0..30).map(|_| r.below(space + 1) as u32).collect() } else { vec![] } },
+            link: LinkCfg { window: *r.pick(&[1usize, 8, 1 << 20]), latency_ms: 0, drop_after_close: false, ws_client: 0 },
+            weights: gen_weights(r),
+            reject: r.below(retries * opens + 2),
+            peer_rwnd: *r.pick(&[1u32, 4, 100]),
+            opens,
+            yields: r.below(4),
+        };
+        (serde_json::to_value(plan).expect("plan"), seed)
+    }
+    fn exec(&self, plan: &Value, sched: &Sched, record: bool) -> Outcome {
+        let Ok(plan) = serde_json::from_value::<C07RawPlan>(plan.clone()) else { return Outcome::default() };
+        run_c07_raw(&plan, sched, record)
+    }
+    fn rule(&self) -> &'static str {
+        "one real endpoint with max_flow_id_retries in {1,2,3,5} and a scripted or counter-based flow-id generator issues 1-3 concurrent new_stream_channel calls; the raw peer rejects the first k Connect frames it sees (k from 0 to beyond all retries) with Reset and acknowledges the rest. Oracle: a request fails with FlowIdRejected exactly after max_flow_id_retries rejected Connects, succeeds iff exactly one of its Connects was acknowledged, never more Connects than retries per request, never id 0 or an id the endpoint still uses. Non-trivial: at least one Connect was rejected."
     }
 }
